@@ -1,6 +1,6 @@
 (** C13 — the three parts composed (what every recording sink sees), and the content of Full / Compact
     records at token level. *)
-From Coq Require Import Lia String.
+From Coq Require Import Lia String PeanoNat.
 From TV Require Import Fmt.RecordModel Fmt.BufferProofs Fmt.WriterProofs.
 Local Open Scope N_scope.
 Local Arguments N.leb : simpl never.
@@ -617,3 +617,51 @@ Example content_example_pretty :
   = OOk (str "   WARN app: hello, k: 7" ++ [10] ++ str "    at src/main.rs:42 on wk00 ThreadId(7)" ++ [10]
          ++ str "    in app::inner" ++ [10] ++ str "    in app::db::outer with a: 1, b: 2" ++ [10; 10]).
 Proof. vm_compute. reflexivity. Qed.
+
+Lemma NoDup_snoc : forall (l : list nat) t, NoDup l -> ~ In t l -> NoDup (l ++ [t]).
+Proof.
+  induction l as [|x r IH]; intros t H N; simpl; [constructor; [tauto | constructor]|].
+  inversion H; subst. constructor.
+  - intros I. apply in_app_or in I as [I|[I|[]]]; [contradiction | subst; apply N; left; reflexivity].
+  - apply IH; [assumption | intros I; apply N; right; exact I].
+Qed.
+
+(** ** Concurrent [record] calls on one span: with the write lock held across the call (the code), whatever the
+    schedule and the number of threads, the stored fields are the groups of the threads that have returned,
+    appended one after the other in the order the calls returned — no recorded field is lost. *)
+Theorem record_atomic_keeps_every_group : forall add gs init sched,
+  let s := rec_run true add gs init sched in
+  r_stored s = fold_left add (map gs (r_done s)) init /\ NoDup (r_done s).
+Proof.
+  intros add gs init sched. unfold rec_run.
+  assert (G : forall s0, (r_stored s0 = fold_left add (map gs (r_done s0)) init /\ NoDup (r_done s0)) ->
+              let s := fold_left (rec_step true add gs) sched s0 in
+              r_stored s = fold_left add (map gs (r_done s)) init /\ NoDup (r_done s)).
+  { induction sched as [|t r IH]; intros s0 H; simpl; [exact H|].
+    apply IH. unfold rec_step. destruct (existsb (Nat.eqb t) (r_done s0)) eqn:E; [exact H|].
+    destruct H as [H1 H2]. simpl. split.
+    - rewrite map_app, fold_left_app, <- H1. reflexivity.
+    - apply NoDup_snoc; [exact H2|]. intros I.
+      assert (X : existsb (Nat.eqb t) (r_done s0) = true).
+      { apply existsb_exists. exists t. split; [exact I | apply Nat.eqb_refl]. }
+      congruence. }
+  apply G. simpl. split; [reflexivity | constructor].
+Qed.
+
+(** ... hence (DefaultFields) the span's formatted fields name every field of every returned call. *)
+Corollary record_atomic_names_every_field : forall gs init sched,
+  let s := rec_run true add_group gs init sched in
+  r_stored s = init ++ concat (map render_ftok (groups_ftoks init (map gs (r_done s))))
+  /\ ftok_fields (groups_ftoks init (map gs (r_done s))) = concat (map gs (r_done s)).
+Proof.
+  intros gs init sched s. destruct (record_atomic_keeps_every_group add_group gs init sched) as [E _].
+  fold s in E. rewrite E. apply fold_add_group_ftoks.
+Qed.
+
+(** The read-copy-replace form loses an update: both threads copy, both store. *)
+Example record_lost_update_without_lock :
+  let gs := fun t => match t with O => [(str "a", str "1")] | _ => [(str "b", str "2")] end in
+  r_stored (rec_run false add_group gs [] [0; 1; 0; 1]%nat) = str "b=2"
+  /\ r_done (rec_run false add_group gs [] [0; 1; 0; 1]%nat) = [0; 1]%nat
+  /\ r_stored (rec_run true add_group gs [] [0; 1; 0; 1]%nat) = str "a=1 b=2".
+Proof. vm_compute. auto. Qed.
